@@ -734,11 +734,12 @@ class Lexer(object):
     patt_unicode_escape = re.compile(r'\\u([0-9a-fA-F]{4})')
 
     # what may follow the get / set of an accessor property: white space,
-    # line terminators or comments and an identifier name, or (with or
-    # without them) a string or numeric literal as the property name.
+    # line terminators or comments and an identifier name or a numeric
+    # literal, or (with or without them) a string literal or a numeric
+    # literal that starts with its dot as the name.
     accessor_name = (
-        r'(?=' + PATT_TOKEN_SEPARATORS.pattern[:-1] + r'+' + identifier +
-        r'|' + PATT_TOKEN_SEPARATORS.pattern + r'''(?:["']|\.?[0-9]))'''
+        r'(?=' + PATT_TOKEN_SEPARATORS.pattern[:-1] + r'+(?:' + identifier +
+        r'|[0-9])|' + PATT_TOKEN_SEPARATORS.pattern + r'''(?:["']|\.[0-9]))'''
     )
     getprop = r'get' + accessor_name
 
